@@ -282,6 +282,9 @@ func (rs *runState) drawBatches(spec *diffSpec) ([]drawnBatch, error) {
 	}
 	rs.programs += n
 	// table programs: deterministic batches
+	if spec.batchSize <= 0 {
+		spec.batchSize = 40
+	}
 	if len(spec.fixed) > 0 {
 		sts := []importStyle{styles[0]}
 		if spec.fixedStyles {
